@@ -15,6 +15,12 @@ def gen(rng, i):
     # finite extremes: very large / very small parameters make the basis (nearly) rank deficient but stay finite
     if c["meta"]["family"] in ("exp2c", "exp1l", "rat2"):
         pool.append([hx(rng.choice([1e6, 1e-3, 64.0]), sc) for _ in range(P)])
+    # parameters at which the model overflows to +-inf / NaN: a legal rejected state (no residuals), after which a good update
+    # must give exactly the fresh-problem values again
+    if c["meta"]["family"] in ("exp2c", "exp1l"):
+        pool.append([hx(-1e-3, sc)] * P)
+    if c["meta"]["family"] in ("exp3", "shared", "cosmix"):
+        pool.append([hx(-3000.0, sc)] * P)
     ops = []
     refs = []
     nsteps = rng.randint(4, 10)
